@@ -155,6 +155,10 @@ def Enum(qual):
     return Shape("enum", qual)
 
 
+def Elem(tag, **k):
+    return Shape("elem", tag, **k)
+
+
 def Instance(qual, **k):
     return Shape("instance", qual, **k)
 
